@@ -30,7 +30,9 @@ def stateOfJson (j : Json) : R (Bool × World × Option WlX) := do
 def sameFinal (a b : Bool × World × Option WlX) : Bool :=
   let (ea, wa, xa) := a
   let (eb, wb, xb) := b
-  ea == eb && wa.br == wb.br && wa.net == wb.net && wa.wl == wb.wl && xa == xb &&
+  -- metadata.generation counts spec writes (the harness' API server bumps it once per CloneSet patch): a re-run after a
+  -- failed call may legitimately repeat a patch, so the counter is history, not final state; everything else is compared
+  ea == eb && wa.br == wb.br && wa.net == wb.net && (wa.wl.map fun x => { x with generation := 0 }) == (wb.wl.map fun x => { x with generation := 0 }) && xa == xb &&
   wa.ro.phase == wb.ro.phase && wa.ro.reason == wb.ro.reason && wa.ro.succeeded == wb.ro.succeeded &&
   (wa.ro.sub.map fun s => (s.curIdx, s.state, s.canaryRev, s.stableRev)) == (wb.ro.sub.map fun s => (s.curIdx, s.state, s.canaryRev, s.stableRev))
 
